@@ -80,7 +80,7 @@ func init() {
 	}
 	// a call racing a step-down caused by a partition (coarse + network deviations)
 	regScenario("stepdown-calls", func() *Scenario {
-		return &Scenario{Nodes: voters(3), Devs: DevAllNet | DevTimer | DevStepEarly, Horizon: 500, Goal: func(w *World) bool { return w.scriptDone() && w.callsDone() && w.converged() },
+		return &Scenario{Nodes: voters(3), Devs: DevAllNet | DevTimer | DevStepEarly, Horizon: 700, Liveness: true, Goal: func(w *World) bool { return w.scriptDone() && w.callsDone() && w.converged() },
 			Steps: []Step{
 				stepApplyLeader("apply1"),
 				stepDo("isolate-leader+calls", whenSettled, func(w *World) {
